@@ -35,11 +35,14 @@ type State struct {
 	lockLog  []string
 	spawned  []string
 	called   map[string]bool // names of the callees called so far on this path (spec builtin called(name))
+	oldHeap  map[string]string // if set: what old() denotes on this path (the state after the last interference point)
+	ncalls   map[string]int  // number of calls of each callee on this path (spec builtin callcount(name))
+	lastRet  map[string]Val  // result of the most recent call of each callee on this path (spec builtin lastresult(name))
 	last     map[string]Val // address -> value most recently stored there (valid until the class is written elsewhere)
 }
 
 func (st *State) clone() *State {
-	n := &State{x: st.x, alloc: st.alloc, ctr: st.ctr}
+	n := &State{x: st.x, alloc: st.alloc, ctr: st.ctr, oldHeap: st.oldHeap}
 	n.log = make([]string, len(st.log), len(st.log)+64)
 	copy(n.log, st.log)
 	n.heap = copyMap(st.heap)
@@ -71,6 +74,14 @@ func (st *State) clone() *State {
 	n.lockLog = append([]string{}, st.lockLog...)
 	n.spawned = append([]string{}, st.spawned...)
 	n.called = map[string]bool{}
+	n.lastRet = map[string]Val{}
+	n.ncalls = map[string]int{}
+	for k, v := range st.ncalls {
+		n.ncalls[k] = v
+	}
+	for k, v := range st.lastRet {
+		n.lastRet[k] = v
+	}
 	for k, v := range st.called {
 		n.called[k] = v
 	}
